@@ -1,7 +1,7 @@
 CONSTANTS
- Q = 11
- P = 23
- GEN = 4
+ Q = 257
+ P = 1543
+ GEN = 64
  DomH1 <- MC_DomH1
  DomH2 <- MC_DomH2
  DomH3 <- MC_DomH3
